@@ -33,6 +33,7 @@ import (
 	"github.com/lestrrat-go/jwx/v2/jwa"
 	"github.com/lestrrat-go/jwx/v2/jwk"
 	"github.com/lestrrat-go/jwx/v2/jws"
+	"github.com/nuts-foundation/nuts-node/audit"
 	"github.com/nuts-foundation/nuts-node/core"
 	nutshttp "github.com/nuts-foundation/nuts-node/http"
 	"github.com/sirupsen/logrus"
@@ -358,10 +359,10 @@ func claimDefects() []claimDefect {
 		d("aud-case", true, func(m map[string]any) { m["aud"] = []string{strings.ToUpper(audience)} }),
 		d("iss-wrong", true, func(m map[string]any) { m["iss"] = "mallory" }),
 		d("iss-missing", true, func(m map[string]any) { delete(m, "iss") }),
-		d("iss-uppercase", true, func(m map[string]any) { m["iss"] = strings.ToUpper(m["iss"].(string)) }),
-		d("iss-suffix", true, func(m map[string]any) { m["iss"] = m["iss"].(string) + "x" }),
-		d("iss-prefix-of-name", true, func(m map[string]any) { m["iss"] = m["iss"].(string)[:3] }),
-		d("iss-trailing-space", true, func(m map[string]any) { m["iss"] = m["iss"].(string) + " " }),
+		d("iss-uppercase", true, func(m map[string]any) { m["iss"] = strings.ToUpper(str(m["iss"])) }),
+		d("iss-suffix", true, func(m map[string]any) { m["iss"] = str(m["iss"]) + "x" }),
+		d("iss-prefix-of-name", true, func(m map[string]any) { m["iss"] = (str(m["iss"]) + "abc")[:3] }),
+		d("iss-trailing-space", true, func(m map[string]any) { m["iss"] = str(m["iss"]) + " " }),
 		d("iss-other-authorized-user", true, func(m map[string]any) { m["iss"] = "bob-ed25519" }),
 		d("sub-missing", true, func(m map[string]any) { delete(m, "sub") }),
 		d("sub-empty", true, func(m map[string]any) { m["sub"] = "" }),
@@ -397,6 +398,8 @@ func claimDefects() []claimDefect {
 		d("extra-claim", false, func(m map[string]any) { m["admin"] = true }),
 	}
 }
+
+func str(v any) string { s, _ := v.(string); return s }
 
 func b64(b []byte) string { return base64.RawURLEncoding.EncodeToString(b) }
 
@@ -704,6 +707,7 @@ func isInternalListenerRoute(r string) bool {
 func TestVerifC04(t *testing.T) {
 	logrus.SetOutput(io.Discard)
 	logrus.SetLevel(logrus.PanicLevel)
+	audit.VerifSilence()
 	r := ev.Start(t, "C04")
 	defer r.Finish()
 	r.Rule("raw-TCP request lines from a rewrite grammar (forms x per-character path rewrites to depth d x suffixes x methods x versions x Host) " +
@@ -908,6 +912,112 @@ func TestVerifC04(t *testing.T) {
 		}
 	}
 	r.Extra("tokens_accepted", int64(accepted))
+
+	// ---- part 3: token life-cycle histories. Every sequence (depth <= 3, at most one wait) over
+	// {present the token, present it with a flipped signature, present it re-signed by an unauthorised key,
+	//  present it on another /internal route, wait until it has expired}; each sequence has its own short-lived
+	// token, all sequences run concurrently (they only sleep), every presentation is judged at the moment it is made.
+	if r.Mine(0) {
+		type evt string
+		alphabet := []evt{"present", "present-flipped", "present-foreign", "present-other-route", "wait"}
+		var seqs [][]evt
+		var gen func(cur []evt)
+		gen = func(cur []evt) {
+			if len(cur) > 0 {
+				seqs = append(seqs, append([]evt{}, cur...))
+			}
+			if len(cur) == 3 {
+				return
+			}
+			for _, e := range alphabet {
+				if e == "wait" {
+					skip := len(cur) == 0
+					for _, c := range cur {
+						skip = skip || c == "wait"
+					}
+					if skip {
+						continue
+					}
+				}
+				gen(append(cur, e))
+			}
+		}
+		gen(nil)
+		r.Bound("lifecycle_sequences", len(seqs))
+		var wg sync.WaitGroup
+		var lmu sync.Mutex
+		firstAccepted, lateRefused := 0, 0
+		const life = 5 * time.Second
+		for qi, seq := range seqs {
+			wg.Add(1)
+			go func(qi int, seq []evt) {
+				defer wg.Done()
+				start := time.Now()
+				claims := normClaims(baseClaims(signers[0].comment))
+				claims["jti"] = fmt.Sprintf("00000000-0000-4000-8000-%012d", qi)
+				claims["exp"] = start.Add(life).Unix()
+				spec := tokenSpec{Signer: 0, Alg: "ES256", Claims: claims}
+				tok, _ := spec.build2(t, signers)
+				flipped, _ := tokenSpec{Signer: 0, Alg: "ES256", Claims: claims, Mangle: "flip-sig"}.build2(t, signers)
+				foreign, _ := tokenSpec{Signer: 4, Alg: "ES256", Claims: claims}.build2(t, signers)
+				// a private route per sequence so that concurrent sequences do not see each other's hits
+				route := fmt.Sprintf("/internal/p/%d", qi)
+				for si, e := range seq {
+					var code int
+					var cred string
+					tgt := target{Method: "GET", Target: route, Version: "HTTP/1.1", Host: "x"}
+					genuineTok := false
+					switch e {
+					case "wait":
+						time.Sleep(time.Until(start.Add(life + 3*time.Second)))
+						continue
+					case "present":
+						cred, genuineTok = tok, true
+					case "present-flipped":
+						cred = flipped
+					case "present-foreign":
+						cred = foreign
+					case "present-other-route":
+						cred, genuineTok = tok, true
+						tgt.Target = fmt.Sprintf("/internal/w/%d", qi)
+					}
+					n := time.Now()
+					code = send(auth.internalAddr, tgt.raw([]string{"Bearer " + cred}))
+					expUnix := claims["exp"].(int64)
+					definitelyExpired := n.Unix() >= expUnix+2
+					definitelyValid := n.Unix() < expUnix-1 && time.Now().Unix() < expUnix-1
+					ran := code == 200
+					lmu.Lock()
+					r.Eval(fmt.Sprintf("life|%v|%d", seq, si))
+					r.Outcome(fmt.Sprintf("lifecycle event=%s expired=%v status=%d", e, definitelyExpired, code))
+					if si == 0 && ran {
+						firstAccepted++
+					}
+					if ran && (!genuineTok || definitelyExpired) {
+						r.Violation(fmt.Sprintf("C04|token-lifecycle|%s|expired=%v", e, definitelyExpired),
+							fmt.Sprintf("sequence %v: step %d (%s) was served although the credential is not acceptable at that moment (expired=%v)", seq, si, e, definitelyExpired),
+							map[string]any{"sequence": seq, "step": si})
+					}
+					if !ran && code != 401 {
+						r.Violation("C04|token-lifecycle-not-401|"+string(e), fmt.Sprintf("sequence %v: refused step answered %d", seq, code), map[string]any{"sequence": seq, "step": si})
+					}
+					if definitelyExpired && !ran {
+						lateRefused++
+					}
+					_ = definitelyValid
+					lmu.Unlock()
+				}
+			}(qi, seq)
+		}
+		wg.Wait()
+		takeHits()
+		r.Extra("lifecycle_first_presentations_accepted", int64(firstAccepted))
+		r.Extra("lifecycle_expired_presentations_refused", int64(lateRefused))
+		if firstAccepted == 0 {
+			r.NotExhaustive("token life-cycle part was vacuous on this run (machine too slow: no first presentation was accepted)")
+		}
+		r.Sample(map[string]any{"lifecycle_sequence": seqs[len(seqs)/2]})
+	}
 }
 
 func classify(t target) string {
